@@ -335,7 +335,19 @@ int sim_system(const char *cmd)
     {
         char *c = buf;
         while (*c == ' ') c++;
-        if (!strncmp(c, "echo ", 5)) { result = strdup(c + 5); rlen = strlen(result); { while (rlen && result[rlen - 1] == ' ') rlen--; } result = realloc(result, rlen + 2); result[rlen++] = '\n'; }
+        if (!strncmp(c, "echo ", 5)) {
+            /* like a shell: arguments are split at blanks and printed separated by single spaces */
+            const char *t = c + 5; int any = 0;
+            result = malloc(strlen(t) + 2);
+            while (*t) {
+                while (*t == ' ' || *t == '\t') t++;
+                if (!*t) break;
+                if (any) result[rlen++] = ' ';
+                while (*t && *t != ' ' && *t != '\t') result[rlen++] = *t++;
+                any = 1;
+            }
+            result[rlen++] = '\n';
+        }
         else if (!strncmp(c, "cat", 3)) {
             char *fn = c + 3; int i;
             while (*fn == ' ') fn++;
@@ -368,7 +380,7 @@ void simenv_set_rand_seed(uint64_t s) { rand_state = s ? s : 1; }
 time_t sim_time(time_t *t) { time_t v = (time_t)(1000000000 + R.clock_us / 1000000); if (t) *t = v; return v; }
 pid_t sim_getpid(void) { return 4242; }
 int sim_rand(void) { rand_state = rand_state * 6364136223846793005ULL + 1442695040888963407ULL; return (int)((rand_state >> 33) & 0x7fffffff); }
-void sim_srand(unsigned s) { rand_state = s ? s : 1; }
+void sim_srand(unsigned s) { (void)s; }   /* the run's seed decides the sequence; libast seeds from pid*time once per process (a function-static flag the simulator cannot reset) */
 void sim_exit(int code)
 {
     simenv_exit_called++;
